@@ -56,6 +56,7 @@ func TestC16(t *testing.T) {
 		r.Distinct("entry", k)
 		_ = v
 	}
+	r.Require("eth_pre_london_slow_block_header_accepted", 1)
 	r.Require("native_calls_monitored", 150)
 	r.Require("successful_calls", 60)
 	r.Require("failed_calls", 10)
